@@ -1,6 +1,8 @@
 """C15: correspondence for ORF scanning (all_orfs.scan_orfs) and intergenic areas
 (all_orfs.find_intergenic_areas), plus an implementation-side oracle on every scan result:
-the reported location, extracted from the genome with Biopython, must be an open reading frame."""
+the reported location, extracted from the genome with Biopython, must be an open reading frame.
+find_all_orfs is run on real Records; the witnesses of the repaired finding FC15a area_misses_enclosing_gene head the
+stream as a regression corpus (REGRESSION_FIND_ALL) and nothing is suppressed for that class any more."""
 import types
 
 import common
@@ -230,16 +232,38 @@ def find_all_oracle(case, record, area, features, starts, stops):
     return None
 
 
-def helper_misses_gene(record, area):
-    """ class predicate of the recorded finding area_misses_enclosing_gene: for some part of the area,
-        Record.get_cds_features_within_location(part, with_overlapping=True) leaves out a gene overlapping it """
-    if area is None:
-        return False
-    for part in area.location.parts:
-        found = record.get_cds_features_within_location(part, with_overlapping=True)
-        if any(cds.overlaps_with(part) and cds not in found for cds in record.get_cds_features()):
-            return True
-    return False
+# regression corpus of find_all_orfs, run first on every run, through the same path as every generated case
+# (correspondence with the model, Biopython oracle, Gallina gap specification - nothing is suppressed for them).
+# Witnesses of the REPAIRED finding FC15a area_misses_enclosing_gene (known_findings.json, status fixed): a gene reaching
+# into the area that the positional look-up Record.get_cds_features_within_location(part, with_overlapping=True) left out
+# of `existing` because a later gene (in record order) ends before the area - find_all_orfs then returned ORF [33:42)(+)
+# inside that gene.  The first entry is the stored witness of the finding (it is also read from known_findings.json, see
+# regression_cases); then the same mechanism with the reaching gene spanning the origin (those sort first in the record),
+# inside one part of an origin-spanning area, and with the reaching gene on the reverse strand.
+_FC15A_GENOME = "C" * 33 + "ATGAAATAA" + "C" * 18
+REGRESSION_FIND_ALL = [
+    {"genome": _FC15A_GENOME, "circular": False, "genes": [[(5, 40, 1)], [(10, 20, 1)]], "area": [(30, 60, 1)],
+     "min_length": 5, "max_overlap": 0},
+    {"genome": _FC15A_GENOME, "circular": True, "genes": [[(25, 60, 1), (0, 4, 1)], [(10, 20, 1)]], "area": [(30, 60, 1)],
+     "min_length": 5, "max_overlap": 0},
+    {"genome": _FC15A_GENOME, "circular": True, "genes": [[(12, 40, 1)], [(15, 20, 1)]],
+     "area": [(30, 60, 1), (0, 8, 1)], "min_length": 5, "max_overlap": 0},
+    {"genome": _FC15A_GENOME, "circular": False, "genes": [[(5, 40, -1)], [(10, 20, 1)], [(12, 18, -1)]],
+     "area": [(30, 60, 1)], "min_length": 5, "max_overlap": 3},
+]
+
+
+def regression_cases():
+    """ the corpus above plus the stored witness of every repaired find_all_orfs finding of known_findings.json """
+    out = [dict(case) for case in REGRESSION_FIND_ALL]
+    for finding in common.load_known_findings("C15"):
+        if finding["status"] == "fixed" and finding["class"] == "area_misses_enclosing_gene":
+            case = dict(finding["witness"])
+            case["genes"] = [[tuple(p) for p in g] for g in case["genes"]]
+            case["area"] = [tuple(p) for p in case["area"]]
+            if case not in out:
+                out.append(case)
+    return out
 
 
 def intergenic_oracle(case, areas):
@@ -309,22 +333,28 @@ RULE = ("scan_orfs: windows of codon-structured random genomes (start/stop codon
         "(rarely) unsorted, padding 0-10, minimum placed on gap lengths, with a bitmap oracle for soundness/coverage/maximality; "
         "find_all_orfs: real Records (ACGT/acgt genomes of 24-190 nt, linear and circular) with 0-5 real CDS features incl. "
         "origin-spanning genes, no area / inner SubRegion / origin-spanning SubRegion, min_length 0-60, max_overlap 0-10, with an "
-        "oracle (Biopython extract/translate, gene overlap, area).  Non-trivial = at least one ORF / one area / one feature "
+        "oracle (Biopython extract/translate, gene overlap, area); the regression corpus (witnesses of the repaired finding "
+        "area_misses_enclosing_gene: nested gene / origin-spanning gene hiding the gene that reaches into the area) runs first.  "
+        "Non-trivial = at least one ORF / one area / one feature "
         "reported; distinct by flat encoding")
 
 
 PENDING = []        # oracle failures inside the class of a recorded finding: decided after the correspondence
 PENDING_BASE = []   # alias of the list of cases, to know the index of the current case
 GAP_SPEC = []       # (index of the case, case, flat case of run id 12, shown output): Gallina specification of C15_gaps
-GAP_CLASS = {1: "area_misses_enclosing_gene", 2: "origin_gene_padding_window"}
+GAP_CLASS = {2: "origin_gene_padding_window"}   # 1 was area_misses_enclosing_gene (FC15a): repaired, never suppressed
 
 
 def enc_chars(text):
     return [len(text)] + [ord(c) for c in text]
 
 
-def run_find_all(chk, gen, all_orfs, starts, stops):
-    case = gen.find_all_case()
+def run_find_all(chk, gen, all_orfs, starts, stops, case=None):
+    regression = case is not None
+    if case is None:
+        case = gen.find_all_case()
+    else:
+        chk.count("find_all_regression_corpus")
     record, area = build_record(case)
     cds = record.get_cds_features()
     flat = [PROP, 3] + enc_chars(case["genome"]) + [len(cds)]
@@ -355,10 +385,11 @@ def run_find_all(chk, gen, all_orfs, starts, stops):
                 # origin-spanning area, and the gene overlapped too much reaches into both parts of the area
                 chk.count("find_all_in_class_origin_gene_padding_window")
                 PENDING.append((len(PENDING_BASE), "origin_gene_padding_window", bad, replay))
-            elif bad.startswith("OVERLAP") and helper_misses_gene(record, area):
-                chk.count("find_all_in_class_area_misses_enclosing_gene")
-                PENDING.append((len(PENDING_BASE), "area_misses_enclosing_gene", bad, replay))
             else:
+                # (an overlap with a gene the look-up helper had left out used to be the recorded class
+                #  area_misses_enclosing_gene, FC15a: repaired, so it is a violation like any other)
+                if regression:
+                    replay["regression_witness_of_repaired_class"] = "area_misses_enclosing_gene"
                 chk.violation("counterexample", f"find_all_orfs returns a feature violating the property: {bad}", replay)
         nontrivial = len(features) > 0
         # the Gallina specification (Model.spec_gaps: shared positions with every gene, searched part, translation;
@@ -391,9 +422,12 @@ def run(chk):
     global PENDING_BASE  # pylint: disable=global-statement
     PENDING_BASE = cases
     listed = set(f["class"] for f in common.load_known_findings("C15") if f["status"] == "known")
+    corpus = regression_cases()
     for i in range(total):
         r = chk.rng.random()
-        if r < 0.62:
+        if i < len(corpus):
+            flat, out, nontrivial, sample = run_find_all(chk, gen, all_orfs, starts, stops, case=corpus[i])
+        elif r < 0.62:
             case = gen.scan_case()
             rl = case["record_length"]
             flat = [PROP, 1, len(case["seq"])] + [ord(c) for c in case["seq"]] + \
@@ -476,7 +510,7 @@ def run(chk):
     # C15_gaps_spec_ok says the model's output satisfies it whenever the guard holds, so a failure under the guard is a
     # violation; a failure outside the guard is attributed to the class the Gallina function gaps_class names.
     gap_verdicts = common.run_driver([g[2] for g in GAP_SPEC])
-    gap_stats = {"evaluated": 0, "guard_holds": 0, "class_area_misses_enclosing_gene": 0,
+    gap_stats = {"evaluated": 0, "guard_holds": 0,
                  "class_origin_gene_padding_window": 0, "spec_failures_in_known_classes": {}}
     for verdict, (idx, case, spec_flat, shown) in zip(gap_verdicts, GAP_SPEC):
         if len(verdict) != 4:
@@ -522,7 +556,7 @@ def known_findings(chk, all_orfs):
             minimum = finding["witness"]["minimum"]
             if len(all_orfs.scan_orfs(seq, 1, 0, minimum)) == 0 and len(all_orfs.scan_orfs(seq, 1, 0, minimum - 1)) == 1:
                 chk.known(finding["what_fails"])
-        if finding["class"] in ("area_misses_enclosing_gene", "origin_gene_padding_window"):
+        if finding["class"] == "origin_gene_padding_window":
             case = dict(finding["witness"])
             case["genes"] = [[tuple(p) for p in g] for g in case["genes"]]
             case["area"] = [tuple(p) for p in case["area"]]
@@ -537,12 +571,8 @@ def known_findings(chk, all_orfs):
             for feature in features:
                 flat += enc_pyloc(feature.location) + enc_chars(feature.get_name()) + enc_chars(feature.translation)
             verdict = common.run_driver([flat])[0]
-            wanted = {"area_misses_enclosing_gene": 1, "origin_gene_padding_window": 2}[finding["class"]]
-            in_class = len(verdict) == 4 and verdict[0] == 0 and verdict[1] == 0 and verdict[2] == wanted
-            if finding["class"] == "area_misses_enclosing_gene" and bad and bad.startswith("OVERLAP ") \
-                    and helper_misses_gene(record, area) and in_class:
-                chk.known(finding["what_fails"])
-            if finding["class"] == "origin_gene_padding_window" and bad and bad.startswith("OVERLAP-ORIGIN") and in_class:
+            in_class = len(verdict) == 4 and verdict[0] == 0 and verdict[1] == 0 and verdict[2] == 2
+            if bad and bad.startswith("OVERLAP-ORIGIN") and in_class:
                 chk.known(finding["what_fails"])
 
 
